@@ -44,7 +44,9 @@ import (
 	"github.com/aldas/go-modbus-client/server"
 )
 
-const srvWait = 15 * time.Second
+// srvWait is the deadline of every wait (failure detection only). Once a wait of a scenario has expired the scenario has
+// failed; the waits after it are short, so that a server that hangs everywhere does not cost a deadline per step.
+var srvWait = 15 * time.Second
 
 type srvEnv struct {
 	mu           sync.Mutex
@@ -890,6 +892,9 @@ func runSrv(ts []string) string {
 			}
 		default:
 			o = "?"
+		}
+		if o == "to" || o == "hang" || o == "nocb" || strings.HasSuffix(o, "stuck") {
+			srvWait = time.Second
 		}
 		obs = append(obs, o)
 	}
